@@ -54,7 +54,13 @@ def build_harness(pkg, variant="serial", profile="release"):
         raise ToolError("unknown variant " + variant)
     env = dict(os.environ, CARGO_NET_OFFLINE="true")
     t0 = time.time()
-    p = subprocess.run(cmd, cwd=HARNESS, env=env, stdout=subprocess.PIPE, stderr=subprocess.STDOUT, text=True)
+    for attempt in range(8):
+        p = subprocess.run(cmd, cwd=HARNESS, env=env, stdout=subprocess.PIPE, stderr=subprocess.STDOUT, text=True)
+        # another engine group's crate being created right now (manifest without sources) is transient
+        if p.returncode != 0 and "failed to load manifest for workspace member" in p.stdout and attempt < 7:
+            time.sleep(30)
+            continue
+        break
     if p.returncode != 0:
         # a compile error is a tool error, never a violation
         raise ToolError("cargo build failed:\n" + p.stdout[-6000:])
